@@ -25,6 +25,27 @@ out = ["# Seeded breaking changes (written by independent sub-agents that saw on
        "| id | property | files | change | needs | outcome |", "|---|---|---|---|---|---|"]
 for r in rows:
     out.append("| %s | %s | %s | %s | %s | %s |" % r[:6])
+# first-pass outcome (before anything was strengthened for that batch), recorded from batch 4 on
+fp = {}
+for d in sorted(os.listdir(os.path.join(ROOT, "seeded"))):
+    f = os.path.join(ROOT, "seeded", d, "first_pass.json")
+    if os.path.exists(f):
+        m = json.load(open(os.path.join(ROOT, "seeded", d, "meta.json")))
+        x = json.load(open(f)).get("quick", {}).get(m["property"])
+        if x is not None:
+            b = {"g": 4, "h": 4, "i": 5, "j": 5}.get(d[-1], 0)
+            e = fp.setdefault(b, {"n": 0, "caught": 0, "failing_input": 0, "missed": []})
+            e["n"] += 1
+            if x["caught"]:
+                e["caught"] += 1; e["failing_input"] += x["by"] == "failing-input"
+            else:
+                e["missed"].append(d)
+if fp:
+    out += ["", "## First-pass outcome per batch (owning quick check, before any strengthening for that batch)", "",
+            "| batch | changes | caught | with failing input | missed |", "|---|---|---|---|---|"]
+    for b in sorted(fp):
+        e = fp[b]
+        out.append("| %d | %d | %d | %d | %s |" % (b, e["n"], e["caught"], e["failing_input"], ", ".join(e["missed"]) or "—"))
 n = len(rows); neut = sum(r[6] == "neutralised" for r in rows); c = sum(r[6] == "caught" for r in rows); miss = sum(r[6] == "missed" for r in rows)
 out += ["", "%d changes; caught by the owning property's quick check: %d; missed: %d; neutralised by a later fix commit: %d; not run yet: %d" % (n, c, miss, neut, n - c - miss - neut)]
 open(os.path.join(ROOT, "seeded", "REPORT.md"), "w").write("\n".join(out) + "\n")
